@@ -49,7 +49,8 @@ class Defect:
         self.id, self.kind, self.set, self.styles, self.doc, self.special = did, kind, setp, styles, doc, special
         self.also = tuple(also)      # further documented rules the same modification inevitably falls under
         self.thorough_only = False
-        self.sector = None           # name of the state that must be reported as tachyonic ("<sector> tachyon")
+        self.sector = None           # name(s) of the state(s) that must be reported as tachyonic ("<sector> tachyon")
+        self.pattern = None          # THDM: sign pattern of the tree-level squared masses
         self.pairs_in_quick = True   # False: enumerated alone in the quick tier, in all pairs in the thorough tier
         self.assumes = ()            # parameters whose valid base value the realisation relies on
         # spectra in which the defect is present: "res" = spectrum with tan(beta)-resummed Yukawa couplings
@@ -165,6 +166,10 @@ def mssm_defects():
         tach("tach:%s:soft-dom" % sec, sec, {R: ("rel", L, 2.0, floor)}, sty,
              "tachyonic %s: %s^2 = -max(2 |%s|, %g)^2, negative eigenvalue of larger magnitude" % (sec, R, L, floor),
              also=("input",))
+        # sign pattern (-,-): both soft masses squared negated, both eigenvalues negative
+        # (verified by sfermion_both_negative() below on every base point)
+        tach("tach:%s:both-neg" % sec, sec, {L: "negate", R: "negate"}, sty,
+             "tachyonic %s: %s^2 and %s^2 both negated, both eigenvalues negative" % (sec, L, R), also=("input",))
     # A negative soft squared mass that is an OUTPUT of the DR-bar -> on-shell conversion (SLHA input):
     # me2(2,2) is determined from the right-smuon pole mass (README: MSOFT[35] is only an "initial guess").
     # At tree level m^2(smu_R) = me2 + m_mu^2 - MZ^2 sw^2 cos(2 beta), so with tan(beta) >= 10 a 20 GeV
@@ -205,6 +210,17 @@ def thdm_defects():
                    "non-integer Yukawa type %s" % tag, special="cli-only")
         d.pairs_in_quick = False
         D.append(d)
+    # every sign pattern of the tree-level squared masses (hh: (-,+) with the negative eigenvalue small / dominant,
+    # (-,-); Ah; Hm; alone and in all combinations), gauge basis at tan(beta) = 3, lambda_6 = lambda_7 = 0.
+    # thdm_tree_spectrum() below (textbook formulas) confirms each pattern for v^2 in [58000, 61000] GeV^2.
+    for hh, a_neg, h_neg, lam, m122 in THDM_TACHYON_POINTS:
+        secs = tuple(x for x, on in (("hh", hh != "++"), ("Ah", a_neg), ("Hm", h_neg)) if on)
+        d = Defect("tach:gauge:hh%s:A%s:H%s" % (hh, "-" if a_neg else "+", "-" if h_neg else "+"), "tachyon",
+                   dict({"lambda_%d" % (i + 1): float(lam[i]) for i in range(5)}, lambda_6=0.0, lambda_7=0.0,
+                        tan_beta=3.0, m122=float(m122)), ("gauge",),
+                   "gauge-basis point with tachyonic %s (hh pattern %s)" % ("+".join(secs), hh))
+        d.sector, d.pairs_in_quick, d.pattern = secs, False, (hh, a_neg, h_neg)
+        D.append(d)
     D.append(Defect("tach:gauge", "tachyon", {"m122": -1.0e5}, ("gauge",), "tachyonic gauge-basis point (m12^2 = -1e5)"))
     # undecidable basis exists only where the basis is inferred from the file (program)
     D.append(Defect("basis=both", "structural", dict(LAM), ("mass",), "mass and gauge basis both given", special="cli-only"))
@@ -237,6 +253,78 @@ def thdm_defects():
         d.pairs_in_quick = False
         D.append(d)
     return D
+
+
+# (hh pattern, Ah tachyonic, Hm tachyonic, (lambda_1..5), m12^2); '-+s' / '-+d': one negative CP-even eigenvalue of
+# smaller / larger magnitude than the positive one, '--': both negative, '++': CP-even sector healthy
+THDM_TACHYON_POINTS = [
+    ("++", False, True, (2, 0.5, -2, 3, -1), 0.0),
+    ("++", True, False, (-1, 0.5, -2, -1, 3), 40000.0),
+    ("++", True, True, (-1, 0.5, -2, 3, 3), 40000.0),
+    ("-+d", False, False, (-1, -1, -2, -3, -3), 0.0),
+    ("-+d", False, True, (-1, -1, 0, 3, -1), 0.0),
+    ("-+d", True, False, (-1, -1, -2, -3, 1), 0.0),
+    ("-+d", True, True, (-1, -1, -2, 1, 3), 0.0),
+    ("-+s", False, False, (-1, -1, -2, -3, -3), 40000.0),
+    ("-+s", False, True, (-1, 0.5, -2, 3, -1), 0.0),
+    ("-+s", True, False, (-1, -1, -2, -3, 3), 40000.0),
+    ("-+s", True, True, (-1, -1, -2, 3, 3), 40000.0),
+    ("--", False, False, (-1, -1, 2, -1, -1), 0.0),
+    ("--", False, True, (-1, -1, -2, 3, -1), 0.0),
+    ("--", True, False, (-1, -1, 2, -3, 1), 0.0),
+    ("--", True, True, (-1, -1, -2, -3, -3), -100000.0),
+]
+
+
+def thdm_tree_spectrum(p, v2):
+    """tree-level squared masses of the general CP-conserving THDM in the gauge basis (Gunion, Haber,
+    hep-ph/0207010 App. D):  mA^2 = m12^2/(s c) - v^2 (2 l5 + l6 c/s + l7 s/c)/2,  mH+^2 = mA^2 + v^2 (l5 - l4)/2,
+    M_hh^2 = mA^2 [[s^2, -s c], [-s c, c^2]] + v^2 [[l1 c^2 + 2 l6 s c + l5 s^2, (l3 + l4) s c + l6 c^2 + l7 s^2],
+                                                  [., l2 s^2 + 2 l7 s c + l5 c^2]]
+    -> ((hh_1^2, hh_2^2) ascending, mA^2, mH+^2)"""
+    tb = p["tan_beta"]
+    l = [p["lambda_%d" % i] for i in range(1, 8)]
+    sb, cb = tb / math.sqrt(1 + tb * tb), 1 / math.sqrt(1 + tb * tb)
+    mA2 = p["m122"] / (sb * cb) - 0.5 * v2 * (2 * l[4] + l[5] * cb / sb + l[6] * sb / cb)
+    mH2 = mA2 + 0.5 * v2 * (l[4] - l[3])
+    a = mA2 * sb * sb + v2 * (l[0] * cb * cb + 2 * l[5] * sb * cb + l[4] * sb * sb)
+    b = -mA2 * sb * cb + v2 * ((l[2] + l[3]) * sb * cb + l[5] * cb * cb + l[6] * sb * sb)
+    c = mA2 * cb * cb + v2 * (l[1] * sb * sb + 2 * l[6] * sb * cb + l[4] * cb * cb)
+    r_ = math.sqrt((a - c) ** 2 / 4 + b * b)
+    return ((a + c) / 2 - r_, (a + c) / 2 + r_), mA2, mH2
+
+
+def thdm_pattern_ok(p, pattern):
+    """does the realisation have its sign pattern, every |m^2| > 3000 GeV^2, for v^2 in [58000, 61000]?"""
+    hh, a_neg, h_neg = pattern
+    for v2 in (58000.0, 61000.0):
+        (e1, e2), A, H = thdm_tree_spectrum(p, v2)
+        if min(abs(e1), abs(e2), abs(A), abs(H)) < 3000 or (A < 0) != a_neg or (H < 0) != h_neg:
+            return False
+        got = "--" if e2 < 0 else "++" if e1 > 0 else "-+s" if abs(e1) < 0.7 * abs(e2) else "-+d" if abs(e1) > 1.4 * abs(e2) else "?"
+        if got != hh:
+            return False
+    return True
+
+
+def sfermion_both_negative(p, sector):
+    """tree-level sfermion mass matrix [[mL^2 + mf^2 + DL, mf X], [mf X, mR^2 + mf^2 + DR]] of the point: are both
+    eigenvalues negative (trace < 0, det > 0) for the fermion mass anywhere in its plausible range?"""
+    L, R, mfs, A, up, T3, Q = {"Sm": ("msl_2", "mse_2", (0.1, 0.11), "Ae_2", False, -0.5, -1.0),
+                               "Stau": ("msl_3", "mse_3", (1.7, 1.8), "Ae_3", False, -0.5, -1.0),
+                               "Sb": ("msq_3", "msd_3", (2.4, 4.3), "Ad_3", False, -0.5, -1.0 / 3),
+                               "St": ("msq_3", "msu_3", (150.0, 175.0), "Au_3", True, 0.5, 2.0 / 3)}[sector]
+    tb = p["TB"]
+    c2b = (1 - tb * tb) / (1 + tb * tb)
+    sw2 = 1 - (p["MW"] / p["MZ"]) ** 2
+    mz2 = p["MZ"] ** 2
+    for mf in mfs:
+        a = p[L] * abs(p[L]) + mf * mf + (T3 - Q * sw2) * mz2 * c2b
+        b = p[R] * abs(p[R]) + mf * mf + Q * sw2 * mz2 * c2b
+        x = mf * (p[A] - p["Mu"] * (1 / tb if up else tb))
+        if not (a + b < 0 and a * b - x * x > 0.05 * a * b):
+            return False
+    return True
 
 
 def _Iabc(a, b, c):
